@@ -838,6 +838,16 @@ def _r4(model, res, m, c, methods, store):
                               'off(name, cb) keeps a listener it must remove or removes one it must keep: for %s the filter '
                               'keeps=%s but the specification says keep=%s' % (case, got, want), case=case,
                               func=c.name + '.off')
+        # membership in a set hashes the callables: a listener need not be hashable (an instance of a class with __eq__, a dataclass)
+        for n in ast.walk(cond):
+            if isinstance(n, ast.Compare) and any(isinstance(o, (ast.In, ast.NotIn)) for o in n.ops):
+                for cmp_ in n.comparators:
+                    if isinstance(cmp_, (ast.Set, ast.SetComp)) or (isinstance(cmp_, ast.Call) and sa.call_name(cmp_) in ('set', 'frozenset')):
+                        res.ob('R4', site, 'callbacks are compared with ==, not hashed: %s' % src(n), False)
+                        res.violation('R4', key + ':callback-hashed', m.where(n),
+                                      'off() tests the callback by membership in a set (%s): that hashes every listener of the name, and a '
+                                      'callable that is not hashable (an object with __eq__, a dataclass instance) makes off() - and the once-wrapper '
+                                      'that calls it during an emit - raise TypeError instead of unsubscribing' % src(n), func=c.name + '.off')
         # identity comparison of callbacks: bound methods are equal but never identical
         for n in ast.walk(cond):
             if isinstance(n, ast.Compare) and any(isinstance(o, (ast.Is, ast.IsNot)) for o in n.ops) and \
